@@ -247,6 +247,9 @@ pub mod context;
 pub mod server;
 pub mod transport;
 pub(crate) mod util;
+#[cfg(tarpc_verif)]
+#[allow(missing_docs)]
+pub mod verif;
 
 pub use crate::transport::sealed::Transport;
 
